@@ -20,6 +20,7 @@ from .commons import (
     kvn2dict,
     xml2dict,
     get_format,
+    Field,
 )
 
 
@@ -216,7 +217,10 @@ def _loads_xml(string):
 
     ud_dict = data["body"]["segment"]["data"].get("userDefinedParameters", {})
 
-    for field in ud_dict.get("USER_DEFINED", []):
+    ud_fields = ud_dict.get("USER_DEFINED", [])
+    if isinstance(ud_fields, Field):
+        ud_fields = [ud_fields]
+    for field in ud_fields:
         ud = orb._data.setdefault("ccsds_user_defined", {})
         ud[field.attrib["parameter"]] = field.text
 
@@ -422,7 +426,7 @@ def _dumps_xml(data, *, kep=True, **kwargs):
                 x = ET.SubElement(mans, f"MAN_DV_{i + 1}", units="km/s")
                 x.text = f"{man._dv[i] / units.km:.6f}"
 
-    if "ccsds_user_defined" in data._data:
+    if data._data.get("ccsds_user_defined"):
         ud = ET.SubElement(data_tag, "userDefinedParameters")
         for k, v in data._data["ccsds_user_defined"].items():
             el = ET.SubElement(ud, "USER_DEFINED", parameter=k)
